@@ -215,6 +215,10 @@ class C06(Prop):
         if not ok:
             res.excluded = why
             return res
+        kf = GW.known_finding_class(case)
+        if kf:
+            res.excluded = kf
+            return res
         oresolver = GW.oracle_resolver(case)
 
         def hop(node, base):
